@@ -329,6 +329,16 @@ func (x *Exec) deepEqual(a, b Value, depth int) *smt.Term {
 			return B.False
 		}
 		if av.Atom != nil || bv.Atom != nil {
+			isBytes := func(s SliceV) bool {
+				if s.Atom != nil || s.Nil || s.Len == 0 {
+					return true
+				}
+				_, ok := x.sliceElems(s)[0].(IntV)
+				return ok
+			}
+			if !isBytes(av) || !isBytes(bv) {
+				x.Unsupported("deep comparison of an opaque byte string with a %d-element slice of other values (labels %s / %s)", av.Len+bv.Len, x.describe(av), x.describe(bv))
+			}
 			return x.bytesEq(av, bv)
 		}
 		ea, eb := x.sliceElems(av), x.sliceElems(bv)
